@@ -91,6 +91,15 @@ impl Transaction {
 
     /// Commit a transaction in the storage layer.
     pub fn commit_transaction(&self) -> Result<Vec<DbRecord>, StorageError> {
+        let records = self.take_records_for_commit()?;
+        self.end_transaction();
+        Ok(records)
+    }
+
+    /// First half of a commit: hand out the pending records in commit order and empty the log.
+    /// The transaction stays active until [`Transaction::end_transaction`] is called, so that no
+    /// other transaction can begin while the caller is still writing the records to the database.
+    pub fn take_records_for_commit(&self) -> Result<Vec<DbRecord>, StorageError> {
         if !self.active.load(Ordering::Relaxed) {
             return Err(StorageError::Transaction(
                 "Transaction not currently active".to_string(),
@@ -110,8 +119,13 @@ impl Transaction {
         // flush the trans log
         self.mods.clear();
 
-        self.active.store(false, Ordering::Relaxed);
         Ok(records)
+    }
+
+    /// Second half of a commit: the records handed out by [`Transaction::take_records_for_commit`]
+    /// have been written (or the write has failed), another transaction may begin.
+    pub fn end_transaction(&self) {
+        self.active.store(false, Ordering::Relaxed);
     }
 
     /// Rollback a transaction.
